@@ -205,6 +205,23 @@ def laws():
             u = Vector(g.syms("u", s[2]), CS(kinds[s[0]])); v = Vector(g.syms("v", s[3]), CS(kinds[s[1]]))
             return Case(raises=REFUSE, thunk=lambda: fn(u, v))
 
+    # two system objects of DIFFERENT kind wrapped around the SAME inner SymPy system (CoordinateSystem(kind, inner)): still two
+    # different coordinate systems -- an equality that looks only at the inner system would let them mix
+    shared_inner = [(a, b, m, n) for a in ("cart", "cyl", "sph") for b in ("cart", "cyl", "sph") if a != b for m, n in ((3, 3), (2, 3), (0, 1))]
+
+    def refuse_shared(fname, fn):
+        @law(f"{fname}/refuses-systems-of-different-kind-sharing-one-inner-system", shared_inner, [fname])
+        def _(s, g):
+            c1 = CS(kinds[s[0]])
+            c2 = CS(kinds[s[1]], c1.coord_system)
+            u = Vector(g.syms("u", s[2]), c1); v = Vector(g.syms("v", s[3]), c2)
+            return Case(raises=REFUSE, thunk=lambda: fn(u, v))
+
+    for _n, _f in (("add_cartesian_vectors", A.add_cartesian_vectors), ("subtract_cartesian_vectors", A.subtract_cartesian_vectors), ("dot_vectors", A.dot_vectors),
+                   ("cross_cartesian_vectors", A.cross_cartesian_vectors), ("equal_vectors", A.equal_vectors), ("reject_cartesian_vector", A.reject_cartesian_vector),
+                   ("project_vector", A.project_vector)):
+        refuse_shared(_n, _f)
+
     refuse("add_cartesian_vectors", A.add_cartesian_vectors)
     refuse("subtract_cartesian_vectors", A.subtract_cartesian_vectors)
     refuse("dot_vectors", A.dot_vectors)
